@@ -99,6 +99,11 @@ func (vr *VerifyReader) Verify() error {
 
 // NewVerifyReader wraps r for reading content with verification against desc.
 func NewVerifyReader(r io.Reader, desc ocispec.Descriptor) *VerifyReader {
+	if desc.Size < 0 {
+		return &VerifyReader{
+			err: fmt.Errorf("%s: %w", desc.Digest, ErrInvalidDescriptorSize),
+		}
+	}
 	if err := desc.Digest.Validate(); err != nil {
 		return &VerifyReader{
 			err: fmt.Errorf("failed to validate %s: %w", desc.Digest, err),
